@@ -63,6 +63,35 @@ class CFG:
         self._dom = dom
         return dom
 
+    def postdominators(self):
+        """Post-dominator sets w.r.t. a virtual exit joined to every terminal block (return / diverging call / unreachable)."""
+        if getattr(self, "_pdom", None) is not None:
+            return self._pdom
+        nodes = sorted(self.reach)
+        exits = [b for b in nodes if not [s for s in self.succ[b] if s in self.reach]]
+        EXIT = -1
+        pdom = {b: set(nodes) | {EXIT} for b in nodes}
+        pdom[EXIT] = {EXIT}
+        changed = True
+        while changed:
+            changed = False
+            for b in nodes:
+                ss = [s for s in self.succ[b] if s in self.reach] or [EXIT]
+                new = None
+                for s2 in ss:
+                    new = set(pdom[s2]) if new is None else new & pdom[s2]
+                new = new | {b}
+                if new != pdom[b]:
+                    pdom[b] = new
+                    changed = True
+        self._pdom = pdom
+        return pdom
+
+    def control_equivalent(self, a, b):
+        """a and b execute together: one dominates the other and the other post-dominates it."""
+        dom, pdom = self.dominators(), self.postdominators()
+        return (a in dom.get(b, ()) and b in pdom.get(a, ())) or (b in dom.get(a, ()) and a in pdom.get(b, ()))
+
     def dominates(self, a, b):
         return a in self.dominators().get(b, set())
 
